@@ -106,6 +106,17 @@ def oracle(chk):
             Kf = np.asarray(k(Xa, Xa))
             chk_val(f"{nm}/diag[{dim}d]", np.asarray(k(Xa)), np.diag(Kf), kernel=nm, X=Xd.tolist())
             chk_val(f"{nm}/symmetric[{dim}d]", Kf, Kf.T, kernel=nm, X=Xd.tolist())
+        # integer-typed coordinates (grid indices, counts): the value is the documented function of the coordinates' VALUES
+        Xi = np.sort(rng.integers(-3, 5, size=(5, dim)), axis=0)
+        for nm, k in zoo:
+            Xa_i = jnp.asarray(Xi[:, 0]) if nm.startswith("qs.") else jnp.asarray(Xi)
+            Xa_f = jnp.asarray(np.asarray(Xa_i, dtype=np.float64))
+            try:
+                Ki, Kfl = np.asarray(k(Xa_i, Xa_i)), np.asarray(k(Xa_f, Xa_f))
+                chk_val(f"{nm}/int64 coordinates vs the same values as floats[{dim}d]", Ki, Kfl, kernel=nm, X=Xi.tolist())
+                chk_val(f"{nm}/int64 coordinates, diagonal path[{dim}d]", np.asarray(k(Xa_i)), np.diag(Kfl), kernel=nm, X=Xi.tolist())
+            except TypeError:
+                pass   # refusing integer arrays outright is not a silently wrong value
     # constant, dot product, polynomial
     for rep in range(reps):
         d = int(rng.integers(1, 4))
